@@ -2,7 +2,8 @@
 C20 — separation helper functions close the material balance and meet their targets.
 
 Adapter for thermosteam/separations.py (mix_and_split, adjust_moisture_content, phase_fraction,
-partition, lle, vle, phase_split, chemical_splits, material_balance) and the dispatch of
+partition, partition_coefficients, lle, vle, phase_split, chemical_splits, material_balance,
+mix_and_split_with_moisture_content) and the dispatch of
 thermosteam/equilibrium/binary_phase_fraction.py::phase_fraction.
 
 Every op of a case is one helper call on freshly built real streams; the outlet streams are built
@@ -101,8 +102,8 @@ def setup():
 
 
 def budget(tier):
-    return {'quick': dict(seconds=70, cases=1100, shrink_s=20, search_s=5),
-            'thorough': dict(seconds=480, cases=30000, shrink_s=40, search_s=20)}[tier]
+    return {'quick': dict(seconds=70, cases=2400, shrink_s=20, search_s=5),
+            'thorough': dict(seconds=480, cases=100000, shrink_s=40, search_s=20)}[tier]
 
 
 # --------------------------------------------------------------------------
@@ -250,6 +251,51 @@ def op_am(d, o):
     o.tags.append('am:' + mode + (':clip' if avail < required - margin else ''))
 
 
+def op_msm(d, o):
+    n, k, mode, mc, strict = d['n'], d['k'], d['mode'], d['mc'], d['strict']
+    MW = MWS[n]
+    ID = None if mode == 'mol' else CHEMS[k]
+    def call(r0, p0):
+        ins = [mk(n, f) for f in d['ins']]
+        r, p = mk(n, r0), mk(n, p0)
+        try:
+            sep.mix_and_split_with_moisture_content(ins, r, p, np.array(d['split'], float), mc, ID, strict)
+        except tmo.exceptions.InfeasibleRegion:
+            return None
+        return arr(r), arr(p)
+    res = call(d.get('top0'), d.get('bot0'))
+    line = (f'msm n={n} ins={VS(d["ins"])} split={V(d["split"])} MW={V(MW)} k={k} mode={mode} mwc={frac(MW_WATER_LITERAL)} '
+            f'mc={frac(mc)} strict={"none" if strict is None else int(strict)}')
+    total = [sum(x) for x in zip(*d['ins'])]
+    R0 = [t * s_ for t, s_ in zip(total, d['split'])]
+    dry = sum(MW[i] * R0[i] for i in range(n) if i != k)
+    required = dry * mc / (1 - mc)
+    avail = MW[k] * total[k]
+    margin = 1e-9 * max(required, avail, 1.0)
+    if res is None:
+        o.emit(line, 'msm err=infeasible')
+        if avail > required + margin:
+            o.fail('mix_split_moisture:spurious-infeasible', f'InfeasibleRegion raised although {avail!r} kg available, {required!r} required')
+        o.tags.append('msm:infeasible'); o.nontrivial = True
+        return
+    R1, P1 = res
+    o.emit(line, f'msm R={V(R1)} P={V(P1)}')
+    check_balance(o, 'mix_split_moisture', total, [R1, P1], f'(strict={strict})')
+    check_nonneg(o, 'mix_split_moisture', [R1, P1], f'(strict={strict})')
+    if avail < required - margin and strict in (None, True):
+        o.fail('mix_split_moisture:infeasibility-not-reported', f'only {avail!r} kg available, {required!r} required, strict={strict}')
+    if avail > required + margin and dry > 0:
+        mass = [MW[i] * R1[i] for i in range(n)]
+        got = mass[k] / sum(mass)
+        if not near(got, mc):
+            o.fail('mix_split_moisture:moisture-not-reached', f'retentate moisture fraction is {got!r}, requested {mc!r}')
+        o.nontrivial = True
+    if d.get('top0') or d.get('bot0'):
+        res2 = call(None, None)
+        if res2 is not None: check_stale(o, 'mix_split_moisture', [R1, P1], list(res2))
+    o.tags.append('msm')
+
+
 def emit_bpf(o):
     """the dispatch of binary_phase_fraction.phase_fraction, from the recorded call"""
     if 'pf_args' not in REC or 'pf' not in REC: return
@@ -283,6 +329,9 @@ def op_pt(d, o):
             except tmo.exceptions.InfeasibleRegion:
                 return 'infeasible', None, None, None, arr(feed)
         clip = any('negative flow' in str(w.message) for w in wl)
+        if not only_fraction and sum(top.mol[i] for i in ids) > 0 and sum(bottom.mol[i] for i in ids) > 0:
+            # achieved coefficients as the library itself computes them from the two outlets
+            REC['Kach'] = [float(x) for x in sep.partition_coefficients(names(n, ids), top, bottom)]
         return float(phi), arr(top), arr(bottom), clip, arr(feed)
     if d.get('only_fraction'):
         phi, _, _, clip, _ = call(None, None, True)
@@ -311,11 +360,22 @@ def op_pt(d, o):
         o.fail('partition:feed-changed', f'partition changed its feed {what}')
     check_balance(o, 'partition', feed0, [t, b], what)
     check_nonneg(o, 'partition', [t, b], what)
+    kach = REC.get('Kach')
+    if in_domain and not clip and 0 < phi < 1 and kach is not None:
+        rs = [ka / k for ka, k, i in zip(kach, K, ids) if t[i] > 0 and b[i] > 0]
+        if len(rs) >= 2 and max(abs(x / rs[0] - 1) for x in rs) > 1e-7:
+            o.fail('partition:K-not-reproduced', f'partition_coefficients(IDs, top, bottom) = {kach} is not a common multiple of the given K {what}')
     if d.get('top0') or d.get('bot0'):
         phi2, t2, b2, _, _ = call(None, None)
         if phi2 != 'infeasible': check_stale(o, 'partition', [t, b], [t2, b2], what)
     if in_domain and not clip and 0 < phi < 1 and spread > 1e-7:
         o.fail('partition:K-not-reproduced', f'top_i/(K_i·bottom_i) differs by {spread:.3g} between equilibrium chemicals {what}')
+    # the returned value is documented as "phase fraction in top phase": 0 / 1 must mean an empty top / bottom
+    # as far as the equilibrium chemicals are concerned
+    if phi <= 0 and any(not near(t[i], 0.0) for i in ids):
+        o.fail('partition:phi-inconsistent', f'returned phi = 0 but the top outlet holds equilibrium chemicals: {t} {what}')
+    if phi >= 1 and any(not near(b[i], 0.0) for i in ids):
+        o.fail('partition:phi-inconsistent', f'returned phi = 1 but the bottom outlet holds equilibrium chemicals: {b} {what}')
     for i in topc:
         if i not in ids and not near(b[i], 0.0):
             o.fail('partition:forced-top', f'{CHEMS[i]} was forced to the top but the bottom holds {b[i]!r} {what}'); break
@@ -481,9 +541,12 @@ def op_mb(d, o):
     o.tags.append('mb')
 
 
-OPS = {'ms': op_ms, 'am': op_am, 'pt': op_pt, 'lle': op_lle, 'vle': op_vle, 'ps': op_ps, 'cs': op_cs, 'mb': op_mb}
-# numerical give-ups of the external solvers on inputs outside the property's domain are not findings
-SOLVER_ERRORS = (ZeroDivisionError, FloatingPointError)
+OPS = {'ms': op_ms, 'am': op_am, 'msm': op_msm, 'pt': op_pt, 'lle': op_lle, 'vle': op_vle, 'ps': op_ps, 'cs': op_cs, 'mb': op_mb}
+# Not findings: numerical give-ups of the external solvers on inputs outside the property's domain, and numba's
+# cache writer failing with `ReferenceError: underlying object has vanished` while pickling the overload index of a
+# kernel that takes a function argument (dew_point.solve_x(…, gamma.f, …)) when NUMBA_CACHE_DIR is set (./check sets
+# it): an environment flake of numba's on-disk cache, GC-timing dependent, unrelated to the property.
+SOLVER_ERRORS = (ZeroDivisionError, FloatingPointError, ReferenceError)
 
 
 def run_impl(case: Case) -> ImplResult:
@@ -631,6 +694,14 @@ def gen_op(rng):
             d = dict(n=n, ins=ins, split=[rng.choice([0.0, 1.0, rng.randrange(0, 65) / 64, rng.randrange(0, 65) / 64]) for _ in range(n)])
         d['top0'], d['bot0'] = stale(rng, n), stale(rng, n)
         return 'ms ' + json.dumps(d)
+    if r < 0.535:                                     # mix_and_split_with_moisture_content
+        n = max(n, 2)
+        mode = 'mol' if rng.random() < 0.5 else 'mass'
+        ins = [flows(rng, n, 0.3) for _ in range(rng.randrange(1, 4))]
+        ins[0][0] += 64.0 * rng.randrange(0, 40)          # wash water
+        split = [rng.randrange(0, 9) / 64] + [rng.randrange(32, 65) / 64 for _ in range(n - 1)]
+        return 'msm ' + json.dumps(dict(n=n, ins=ins, split=split, k=0, mode=mode, mc=rng.randrange(1, 61) / 64,
+                                        strict=rng.choice([None, True, False]), top0=stale(rng, n), bot0=stale(rng, n)))
     if r < 0.64:                                      # adjust_moisture_content
         mode = 'mol' if rng.random() < 0.5 else 'mass'
         k = 0 if mode == 'mol' or rng.random() < 0.5 else rng.randrange(n)
